@@ -10,7 +10,7 @@ EXPLANATION = (
     'divided by it. ADVANCE: write/write16/write32 and print/print16/print32 use the accessor of their width and step '
     'by that width. UTIL-HEX: get_hex computes n*16+digit for every admitted character. R-NULL: command handlers do not '
     'dereference a pointer on the path where they found it null. Not decided: number parsing for every spelling, '
-    'agreement with what the simulators fetch.')
+    'agreement with what the simulators fetch. UTIL-ORDER: every number spelling get_num recognises by its first characters before the `h`-suffix test contains a non-hex character, so a literal ending in h is always read as hexadecimal. R-IDX(ptr) also follows pointers handed out by a helper (`return page->bin + offset`) into the callers that index them.')
 
 
 def run(tier, t0):
@@ -18,7 +18,7 @@ def run(tier, t0):
     ln = lane.lanes(prog, 40)
     ln.obs = [o for o in ln.obs if o.file == 'core/Memory.cpp']
     ln.floor = 8
-    results = [ln, util.util_unit(prog), util.advance(prog), util.util_hex(prog), util.util_dec(prog),
+    results = [ln, util.util_unit(prog), util.advance(prog), util.util_hex(prog), util.util_dec(prog), util.util_order(prog),
                null.null_a(prog, lambda f: f.file in ('core/UtilContext.cpp', 'main/naken_util.cpp', 'common/String.cpp',
                                                      'common/StringTokenizer.cpp'), floor=3),
                idx.ptr_into_array(prog, lambda f: f.file in ('core/Memory.cpp', 'core/Memory.h', 'core/MemoryPage.h', 'core/MemoryPage.cpp', 'core/UtilContext.cpp'))]
